@@ -461,6 +461,8 @@ def c04(tier, seed):
     out = [
         {'line': './oe > f; echo --; cat f', 'files': F, 'expect_stdout': '--\nO\n', 'area': 'redirect:stdout'},
         {'line': './oe >f; echo --; cat f', 'files': F, 'expect_stdout': '--\nO\n', 'area': 'redirect:stdout:no-space'},
+        # KNOWN FINDING (recorded, not repaired): two redirection operators glued into one word -- the word is dropped, neither redirection happens
+        {'line': './oe >a5>b5; echo --; cat b5; ls a5', 'files': F, 'expect_stdout': '--\nO\na5\n', 'area': 'redirect:two-operators-glued-in-one-word'},
         {'line': './oe 1> f; echo --; cat f', 'files': F, 'expect_stdout': '--\nO\n', 'area': 'redirect:stdout'},
         {'line': './oe 2> f; echo --; cat f', 'files': F, 'expect_stdout': 'O\n--\nE\n', 'area': 'redirect:stderr'},
         {'line': './oe 2>f; echo --; cat f', 'files': F, 'expect_stdout': 'O\n--\nE\n', 'area': 'redirect:stderr:no-space'},
@@ -759,6 +761,8 @@ def c01(tier, seed):
         out.append({'line': line, 'files': {'pargs': PARGS}, 'expect_stdout': ''.join(_argv(e) for e in exps), 'area': 'argv:escaped:blank-at-the-end', 'timeout': 5})
     # `?` and `[` are ordinary characters of an argument (the only wildcard is `*`), escaped or not
     out.append({'line': './pargs x a\\? a? \\[ab] y', 'files': {'pargs': PARGS, 'ab': '', 'ac': ''}, 'expect_stdout': _argv(['x', 'a?', 'a?', '[ab]', 'y']), 'area': 'argv:escaped:not-a-wildcard', 'timeout': 5})
+    # KNOWN FINDING (recorded, not repaired): the same escaped argument on a line of a SCRIPT (the positional-parameter pass re-serialises the words)
+    out.append({'script': './pargs a\\ b c\n', 'files': {'pargs': PARGS}, 'expect_stdout': _argv(['a b', 'c']), 'area': 'argv:script:escaped-blank', 'timeout': 5})
     # what an escaped character does to its word ends with that word -- whatever the word ends in
     for first, exp1 in (('\\*"x"', '*x'), ("\\>'y'", '>y'), ('\\~"/q"', '~/q'), ('\\{"a,b}"', '{a,b}')):
         out.append({'line': 'V=val; ./pargs ' + first.replace('\\\\', '\\') + ' af* $V ~ {1,2}', 'files': {'pargs': PARGS, 'afile': ''},
